@@ -440,7 +440,7 @@ Print Assumptions C20_x_emitter_bounded.
 (* with a blocking channel send instead of select/default the tick IS blocked for good by a subscriber that never reads —
    and even then the emitter finishes: one client (resolve, two emissions), one thread (Subscribe(1); tick; tick) *)
 Definition w5_progs : list (list op) := [[OResolve tA; OEmitH 0 EAdd 1; OEmitH 0 EAdd 1]].
-Definition w5_aux : list (list sop) := [[SSubscribe 1; STick; STick]].
+Definition w5_aux : list (list sop) := [[SSubscribe 1 256; STick; STick]].
 Definition w5_sched : list (bool * nat) :=
   repeat (false, 0%nat) 5 ++ repeat (true, 0%nat) 9 ++ repeat (false, 0%nat) 6 ++ repeat (true, 0%nat) 5 ++ repeat (false, 0%nat) 10.
 Theorem C20_x_channel_send_refuted :
@@ -468,7 +468,7 @@ Print Assumptions C20_x_nonvacuous.
    runs the initialiser *)
 Definition is_none {A} (o : option A) : bool := match o with None => true | Some _ => false end.
 Example C20_x_waits_nonvacuous :
-  (let x := xrun (cfg_of Repaired 2) SelectDefault (xsys0 [] [[SSubscribe 1]; [SSubscribe 1]]) [(false,0);(false,0);(false,0);(false,1);(false,1)]%nat in
+  (let x := xrun (cfg_of Repaired 2) SelectDefault (xsys0 [] [[SSubscribe 1 256]; [SSubscribe 1 256]]) [(false,0);(false,0);(false,0);(false,1);(false,1)]%nat in
    match nth_error (x_aux x) 1 with Some a => is_none (xstep_aux SelectDefault (x_sh x) (x_ss x) a) = true | None => False end /\
    let y := xrun (cfg_of Repaired 2) SelectDefault x [(false,0);(false,0)]%nat in
    match nth_error (x_aux y) 1 with Some a => is_none (xstep_aux SelectDefault (x_sh y) (x_ss y) a) = false | None => False end) /\
@@ -528,7 +528,7 @@ Proof. vm_compute. repeat split; reflexivity. Qed.
 Print Assumptions C20_emit_nonblocking_nonvacuous.
 
 Example C20_tick_never_blocks_nonvacuous :
-  let b := sub_publish_n 3 (sub_new 1) in sb_len b = 1%nat /\ sb_dropped b = 2 /\ sb_unsub (sub_new 1) = false.
+  let b := sub_publish_n 3 (sub_new 256 1) in sb_len b = 1%nat /\ sb_dropped b = 2 /\ sb_unsub (sub_new 256 1) = false.
 Proof. vm_compute. repeat split; reflexivity. Qed.
 Print Assumptions C20_tick_never_blocks_nonvacuous.
 
@@ -544,19 +544,21 @@ Proof. exact conc_handle_tuple. Qed.
 Print Assumptions C20_conc_handle_tuple.
 
 (* ---------------------------------------------------------------- default configuration *)
-(* A metric registered WITHOUT an explicit MaxSeriesPerMetric (zero value) is capped at DefaultMaxSeriesPerMetric = 10000:
-   for every schedule, at every point, it never has more than 10000 series.  (The machine takes [eff_cap raw] as its cap;
+(* A metric registered WITHOUT an explicit MaxSeriesPerMetric (zero value) is capped at the implementation's default
+   (DefaultMaxSeriesPerMetric, 10000 at /repo HEAD; any positive value is admissible, the `bulk` cases read the constant):
+   for every schedule, at every point, it never has more series than that default.  (The machine takes [eff_cap raw] as its cap;
    the `bulk` correspondence cases register all three metric kinds with cap 0 and drive them past 10000 tuples.) *)
-Theorem C20_default_cap : forall k nl bs progs sched,
-  let c := {| c_kind := k; c_cap := eff_cap 0; c_nlabels := nl; c_buckets := bs; c_variant := Repaired |} in
-  Z.of_nat (length (snapshot (sh (run_sched c (sys0 progs) sched)))) <= 10000.
+Theorem C20_default_cap : forall dflt k nl bs progs sched,
+  0 < dflt ->
+  let c := {| c_kind := k; c_cap := eff_cap_with dflt 0; c_nlabels := nl; c_buckets := bs; c_variant := Repaired |} in
+  Z.of_nat (length (snapshot (sh (run_sched c (sys0 progs) sched)))) <= dflt.
 Proof.
-  intros k nl bs progs sched c. destruct (conc_cap c progs sched eq_refl) as [H _]. apply H. vm_compute. reflexivity.
+  intros dflt k nl bs progs sched Hd c. destruct (conc_cap c progs sched eq_refl) as [H _]. apply H. exact Hd.
 Qed.
 Print Assumptions C20_default_cap.
 
 Theorem C20_eff_cap_spec : forall raw, eff_cap raw = (if raw =? 0 then 10000 else raw) /\ (raw <> 0 -> eff_cap raw = raw).
-Proof. intros raw. unfold eff_cap, default_cap. split; [reflexivity|]. intros H. destruct (Z.eqb_spec raw 0); [contradiction | reflexivity]. Qed.
+Proof. intros raw. unfold eff_cap, eff_cap_with, default_cap. split; [reflexivity|]. intros H. destruct (Z.eqb_spec raw 0); [contradiction | reflexivity]. Qed.
 Print Assumptions C20_eff_cap_spec.
 
 (* ---------------------------------------------------------------- ghost-free aggregate over what the snapshot reports *)
@@ -647,3 +649,15 @@ Example C20_schema_nonvacuous :
   rerrs (rsh x) = 4.
 Proof. vm_compute. split; reflexivity. Qed.
 Print Assumptions C20_schema_nonvacuous.
+
+(* ---------------------------------------------------------------- choices the property leaves free *)
+(* the default subscription buffer (BufferSize <= 0) is not fixed by the property: [SSubscribe buf dflt] carries the capacity the
+   implementation chose, every theorem about the extended machine quantifies over all [aprogs] and hence over every such choice;
+   whatever the capacity, publishing never blocks and every update is delivered or counted as dropped (C20_tick_never_blocks is
+   stated for an arbitrary subscription).  /repo HEAD's 256 and 1024 are both admissible: *)
+Example C20_default_buffer_free :
+  (forall dflt, sb_cap (sub_new dflt 0) = dflt /\ sb_cap (sub_new dflt 7) = 7%nat) /\
+  (let b := sub_publish_n 300 (sub_new 256 0) in (sb_len b, sb_dropped b) = (256%nat, 44)) /\
+  (let b := sub_publish_n 300 (sub_new 1024 0) in (sb_len b, sb_dropped b) = (300%nat, 0)).
+Proof. split; [intros dflt; split; reflexivity|]. vm_compute. split; reflexivity. Qed.
+Print Assumptions C20_default_buffer_free.
